@@ -58,6 +58,14 @@ func propC04(c *ctx) error {
 				bs = append(bs, fmt.Sprint(b))
 			}
 			cs = append(cs, coll{"str", vStr(s), bs, keys, true})
+			// a string is ranged over byte by byte, also when it holds multi-byte characters
+			if u, ok := map[int]string{2: "é", 3: "€", 4: "a€", 1: "~"}[n]; ok {
+				var ub []string
+				for _, b := range []byte(u) {
+					ub = append(ub, fmt.Sprint(b))
+				}
+				cs = append(cs, coll{"ustr", vStr(u), ub, keys, true})
+			}
 		}
 		if n == 1 {
 			cs = append(cs, coll{"m1", vMap(kv{"only", vInt(7)}), []string{"7"}, []string{"only"}, true})
